@@ -360,6 +360,13 @@ theorem build_valid (p : BuildAlg.Prog) (hwf : WF p) (b : Built) (tr : List Ev)
   obtain ⟨d, F⟩ := Bridge.bridgeFacts p hwf b st hdi htopo hown TF hinv hbtopo hargs LF
   exact build_valid_of_facts p hwf b tr h d F
 
+/-- `build_valid` with every hypothesis executable (what the driver evaluates on each case). -/
+theorem build_valid_checked (p : BuildAlg.Prog) (hwf : p.WFb = true) (b : Built) (tr : List Ev)
+    (h : build p = .ok (b, tr)) (hlf : Bridge.leakFreeB p b = true) :
+    Prog.validG (Bridge.toProg p b.argsOf).nodes (Bridge.toEGraph p b)
+      (Bridge.toProg p b.argsOf).main [] = true :=
+  build_valid p (wf_of_wfb p hwf) b tr h (Bridge.leakFree_of_check p b hlf)
+
 /-- **build_correct** (composition with C01's `valid_sound`): running the built emission with the
     ONNX scoping rule computes the program's direct denotation, for any operator semantics, any
     binding of the outer arguments and any actual inputs. -/
